@@ -25,7 +25,7 @@ PLANS = {
     "C01": lambda tier: {
         "level": "exploration",
         "stages": [main_stage(40, 240, tier)],
-        "require": ["morphemes_checked", "class_rewritten", "class_multi_morpheme", "class_split_token"],
+        "require": ["morphemes_checked", "class_rewritten", "class_multi_morpheme", "class_split_token", "long_inputs_accepted", "nonempty_inputs_normalised_to_empty"],
         "rule": "seeded worlds (random matrix + lexicon with A/B compounds + 0-3 user dictionaries + random plugin stack "
                 "incl. NFKC/lower-casing, prolonged-sound-mark collapsing, yomigana deletion, MeCab/regex/simple OOV, "
                 "numeric/katakana joining) x texts built from dictionary keys, near misses, numerals, katakana runs, "
@@ -37,7 +37,7 @@ PLANS = {
     "C02": lambda tier: {
         "level": "exploration",
         "stages": [main_stage(40, 240, tier)],
-        "require": ["lattice_nodes_checked", "lattices_with_alternative_paths", "results_compared_with_chain",
+        "require": ["lattice_nodes_checked", "lattices_with_alternative_paths", "results_compared_with_chain", "rewritten_results_cost_checked",
                     "dictionary_candidates_expected_and_found", "worlds_nonsquare_matrix"],
         "rule": "seeded worlds (square and non-square matrices with negative / extreme costs, inhibited pairs, homographs, "
                 "overlapping keys, user dictionaries, random OOV stacks; path-rewrite plugins in 1 of 5 worlds) x texts of "
@@ -51,7 +51,7 @@ PLANS = {
     "C17": lambda tier: {
         "level": "exploration",
         "stages": [main_stage(30, 240, tier)],
-        "require": ["code_points_checked", "definitions_with_overlapping_lines", "permutations_checked", "iter_ranges_checked"],
+        "require": ["code_points_checked", "definitions_with_overlapping_lines", "permutations_checked", "iter_ranges_checked", "code_points_checked_through_from_file"],
         "rule": "seeded definition files (0-40 lines; overlapping, nested, adjacent, duplicated, single-point ranges; ranges at 0, "
                 "around the surrogate gap and at U+10FFFE; 1-3 classes per line incl. ALL, NOOOVBOW, NOOOVBOW2; hex spelling "
                 "variants, comments) loaded with CharacterCategory::from_reader; for EVERY Unicode scalar value (1,112,064 per "
@@ -64,7 +64,7 @@ PLANS = {
         "level": "exploration",
         "stages": [main_stage(30, 240, tier)],
         "require": ["edit_batches", "histories_with_several_batches", "map_positions_checked", "built_positions_checked",
-                    "morpheme_offsets_checked", "tokenizations_rewritten_multibyte"],
+                    "morpheme_offsets_checked", "tokenizations_rewritten_multibyte", "split_morpheme_offsets_checked", "expanding_inputs_near_the_limit_accepted"],
         "rule": "part A: seeded originals (1-12 chars mixing 1-4 byte characters) x histories of 1-4 edit batches on a real InputBuffer "
                 "through with_editor (sorted non-overlapping non-empty ranges on char boundaries at start/middle/end/adjacent, replaced by "
                 "empty/equal/shorter/longer strings through replace_ref/char/char_iter/own; histories emptying the text are cut); after "
@@ -83,7 +83,7 @@ PLANS = {
                   + ([] if tier == "quick" else [
                       main_stage(60, 300, tier, build="asan", name="asan", death_is_violation=True),
                       dict(main_stage(60, 900, tier, build="miri", name="miri"), shards=16)]),
-        "require": ["lookups_with_matches", "exact_lookups", "trie_accesses_seen_by_hook", "word_id_table_accesses_seen_by_hook",
+        "require": ["lookups_with_matches", "exact_lookups", "trie_accesses_seen_by_hook", "word_id_table_accesses_seen_by_hook", "huge_dictionary_keys_checked",
                     "valgrind.lookups_with_matches"],
         "rule": "seeded dictionary stacks (system + 0..14 user layers; keys sharing prefixes, prefix chains, 2-127 homographs, astral / "
                 "single-byte keys, non-indexed rows, bulk lexicons of 100-4000 keys, thorough: 20k-70k keys so word-id-table offsets cross "
@@ -95,14 +95,16 @@ PLANS = {
     },
     "C05": lambda tier: {
         "level": "exploration",
-        "stages": [main_stage(40, 300, tier)] + ([] if tier == "quick" else [
+        "stages": [dict(main_stage(40, 300, tier), needs=["cli"])] + ([] if tier == "quick" else [
             dict(main_stage(60, 900, tier, build="miri", name="miri"), shards=16)]),
-        "require": ["fields_compared", "matrix_cells_compared", "recompilations_compared", "loads_at_other_alignment"],
+        "require": ["fields_compared", "matrix_cells_compared", "recompilations_compared", "loads_at_other_alignment",
+                    "cli_builds_from_several_files"],
         "rule": "seeded lexicons (homographs, non-indexed rows, differing headword/reading/normalised forms, dictionary-form references, "
                 "numeric and inline A/B split references, word structure, 0-127 synonym ids, \\u escapes, strings of 1/126/127/128/129/255/256/"
                 "1000/10922 UTF-16 units incl. surrogate pairs, keys of 126-255 bytes, empty forms) + square / non-square matrices with "
                 "extreme costs + 0-3 user dictionaries (U-references, own POS); every field of every entry and every matrix cell of the "
-                "loaded dictionary is compared with the source model; each input is compiled twice (byte comparison); the bytes are "
+                "loaded dictionary is compared with the source model; each input is compiled twice (byte comparison) and, in every fourth world, "
+                "once more with `sudachi build` from 1-3 lexicon files whose command order is not alphabetical (bytes equal except the time stamp); the bytes are "
                 "re-loaded from base+1..base+7 and all observations compared. distinct_nontrivial = distinct lexicons containing split "
                 "references that passed all comparisons",
         "assumptions": COMMON_ASSUMPTIONS + ["an empty reading / normalised form in the CSV is not compared (format's spelling of 'same as headword')",
@@ -119,7 +121,7 @@ PLANS = {
             main_stage(60, 300, tier, build="asan", name="asan", death_is_violation=True),
             dict(main_stage(60, 900, tier, build="miri", name="miri", death_is_violation=False), shards=16),
         ]),
-        "require": ["morphemes_touched", "matrix_reads_seen_by_hook", "limit_worlds", "too_long_errors", "long_inputs_handled",
+        "require": ["morphemes_touched", "matrix_reads_seen_by_hook", "limit_worlds", "too_long_errors", "long_inputs_handled", "debug_mode_analyses",
                     "rel.morphemes_touched", "valgrind.morphemes_touched", "probe_scenarios"],
         "rule": "seeded worlds (full random plugin stacks, cost extremes, compounds whose last unit is longer than declared, user "
                 "dictionaries, aligned and odd-address loads) x hostile texts (NUL/controls, combining marks, ZWJ, variation selectors, emoji "
@@ -154,7 +156,7 @@ PLANS = {
     "C16": lambda tier: {
         "level": "exploration",
         "stages": [main_stage(40, 300, tier, death_is_violation=True)],
-        "require": ["sentences_checked", "texts_with_several_sentences", "small_window_runs", "texts_longer_than_the_window", "probe_scenarios"],
+        "require": ["sentences_checked", "texts_with_several_sentences", "small_window_runs", "texts_longer_than_the_window", "probe_scenarios", "lexicons_with_user_dictionaries"],
         "rule": "seeded lexicons (ordinary words, words containing / ending with terminators such as 'モーニング娘。', 'な。な', 'Yahoo!', "
                 "one-character terminator entries '。' '！' '?', words made of closers) x seeded texts (terminator runs, periods in numbers and "
                 "itemisation headers, nested / unbalanced brackets of 12 kinds, quote particles after terminators, <br> runs of mixed case, "
@@ -170,7 +172,7 @@ PLANS = {
     "C15": lambda tier: {
         "level": "exploration",
         "stages": [main_stage(40, 300, tier)],
-        "require": ["wellformed_numerals_checked", "shape_plain", "shape_plain+separators", "shape_plain+fraction", "shape_units",
+        "require": ["wellformed_numerals_checked", "shape_plain", "shape_plain+separators", "shape_plain+fraction", "shape_units", "bad_separator_groupings_checked",
                     "shape_units+fraction", "mutated_numerals_checked", "joined_tokens_evaluated", "probe_scenarios"],
         "rule": "numerals generated FROM A VALUE: plain digit strings of 1-60 Arabic / kanji digits with optional thousands separators and "
                 "fraction (leading zeros kept), and unit numerals with up to four 10^4 groups (兆 億 万 ones; groups written with 千百十 with "
@@ -244,7 +246,7 @@ PLANS = {
     "C09": lambda tier: {
         "level": "exploration",
         "stages": [main_stage(40, 300, tier)],
-        "require": ["split_tokens_checked", "unsplit_tokens_checked", "on_demand_splits_checked", "split_texts_where_normalised_length_differs"],
+        "require": ["split_tokens_checked", "unsplit_tokens_checked", "on_demand_splits_checked", "split_texts_where_normalised_length_differs", "on_demand_splits_into_nonempty_lists", "worlds_with_path_rewrite_plugins"],
         "rule": "seeded worlds whose declared A/B units concatenate to the key (system->system, user->system, user->user references in "
                 "numeric, U-prefixed and inline notation; units of mixed byte width; 0-4 user dictionaries; random input-text / OOV stacks, no "
                 "path-rewrite plugins) x texts made of compound keys in plain / upper-case / full-width spelling plus filler; the same text "
@@ -293,7 +295,7 @@ PLANS = {
         "stages": [main_stage(60, 300, tier, death_is_violation=True),
                    main_stage(60, 300, tier, build="rel", name="rel", death_is_violation=True),
                    dict(main_stage(30, 30, tier, name="d24probe", death_is_violation=True, shards=1), abort_probe="D24")],
-        "require": ["sink_fault_points", "dictionaries_with_every_failure_offset_enumerated", "mutated_inputs", "inputs_accepted",
+        "require": ["sink_fault_points", "dictionaries_with_every_failure_offset_enumerated", "mutated_inputs", "inputs_accepted", "descriptions_tried",
                     "inputs_rejected_with_error", "accepted_dictionaries_loaded", "analyses_with_accepted_dictionaries", "probe_scenarios",
                     "rel.sink_fault_points", "rel.mutated_inputs"],
         "rule": "(b, the fault enumeration) for every 4th generated dictionary the output sink is made to fail after k bytes for EVERY k in "
@@ -343,7 +345,7 @@ PLANS = {
     "C19": lambda tier: {
         "level": "exploration",
         "stages": [dict(main_stage(90, 400, tier, death_is_violation=False), needs=["py", "cli"])],
-        "require": ["scenarios", "py_cases", "py_fields_compared", "py_splits_compared", "py_lookups", "py_history_probes",
+        "require": ["scenarios", "py_cases", "py_fields_compared", "py_splits_compared", "py_lookups", "py_history_probes", "py_py_builds", "cli_lines_whose_content_ends_with_cr",
                     "cli_runs_compared", "cli_files_with_blank_lines"],
         "rule": "per scenario a generated world (dictionaries + user dictionaries + definition files + sudachi.json with a random plugin stack) "
                 "is written to a directory; the expected results are computed in-process with the core library; (Python) the freshly built "
